@@ -54,7 +54,12 @@ impl<'cmd> Parser<'cmd> {
     ) -> ClapResult<()> {
         debug!("Parser::get_matches_with");
 
-        ok!(self.parse(matcher, raw_args, args_cursor).map_err(|err| {
+        // The values of the last option are only validated by `resolve_pending`
+        let parsed = match self.parse(matcher, raw_args, args_cursor) {
+            Ok(()) => self.resolve_pending(matcher),
+            Err(err) => Err(err),
+        };
+        ok!(parsed.map_err(|err| {
             if self.cmd.is_ignore_errors_set() {
                 #[cfg(feature = "env")]
                 let _ = self.add_env(matcher);
@@ -62,7 +67,6 @@ impl<'cmd> Parser<'cmd> {
             }
             err
         }));
-        ok!(self.resolve_pending(matcher));
 
         #[cfg(feature = "env")]
         ok!(self.add_env(matcher));
